@@ -33,20 +33,26 @@ type RunResult struct {
 	Yields     int
 	Switches   int
 	Aborted    bool         // the run could not be judged to the end for reasons outside this property
-	Witness    []core.Fault // for image-based failures: the explicit fault reproducing the first failing image
+	Witness    map[string]core.Fault // for image-based failures: violation signature -> explicit fault reproducing the first image that shows it
 }
 
 // Spec is one property check.
 type Spec struct {
-	ID      string
-	Level   string // evidence level
-	Rule    string
-	Gen     func(r *core.Rng, tier string) *prog.Program
-	Exec    func(seed uint64, p *prog.Program) *RunResult
-	Classes map[string]bool // violation classes that are this property's business
-	Assume  []string
-	Real    []string
-	Stub    []string
+	ID    string
+	Level string // evidence level
+	Rule  string
+	Gen   func(r *core.Rng, tier string) *prog.Program
+	Exec  func(seed uint64, p *prog.Program) *RunResult
+	// Deep, if set, is used while shrinking an image-based failure: it takes
+	// every image at every FMP so that a shrunk program is judged on all of its
+	// crash points, not on an ordinal that shifted.
+	Deep func(seed uint64, p *prog.Program) *RunResult
+	// ExecTier, if set, returns the executor for a tier (sampling depth differs).
+	ExecTier func(tier string) func(seed uint64, p *prog.Program) *RunResult
+	Classes  map[string]bool // violation classes that are this property's business
+	Assume   []string
+	Real     []string
+	Stub     []string
 	// Known findings: avoidance is built into Gen; each witness must still reproduce.
 	QuickSecs    int
 	ThoroughSecs int
@@ -143,7 +149,11 @@ func Worker(s *Spec, tier string, batch uint64, k, stride, maxRuns int, deadline
 		}
 		seed := RunSeed(batch, s.ID, i)
 		p := s.GenProgram(seed, tier)
-		res := s.Exec(seed, p)
+		exec := s.Exec
+		if s.ExecTier != nil {
+			exec = s.ExecTier(tier)
+		}
+		res := exec(seed, p)
 		out.Runs++
 		addMap(out.Probes, res.Probes)
 		addMap(out.Faults, res.Faults)
@@ -171,9 +181,9 @@ func Worker(s *Spec, tier string, batch uint64, k, stride, maxRuns int, deadline
 			out.Samples = append(out.Samples, b)
 		}
 		if vs := s.relevant(res.Viol); len(vs) > 0 {
-			if len(res.Witness) > 0 {
+			if w, ok := res.Witness[vs[0].Sig]; ok {
 				p = p.Clone()
-				p.Faults = append(p.Faults, res.Witness...)
+				p.Faults = append(p.Faults, w)
 			}
 			out.Failures = append(out.Failures, Failure{Prop: s.ID, Seed: seed, Run: i, Tier: tier, Program: p, Viol: vs})
 			if len(out.Failures) >= 5 {
@@ -212,11 +222,19 @@ func sameFailure(vs []run.Violation, sig string) bool {
 // violation signature.
 func Shrink(s *Spec, seed uint64, p *prog.Program, sig string, budget time.Duration) *prog.Program {
 	deadline := time.Now().Add(budget)
+	exec := s.Exec
+	if s.Deep != nil && hasSnapFaults(p) {
+		exec = s.Deep
+		p = stripSnapFaults(p)
+		if !sameFailure(s.relevant(exec(seed, p).Viol), sig) {
+			return p0(p, s, seed)
+		}
+	}
 	fails := func(q *prog.Program) bool {
 		if time.Now().After(deadline) {
 			return false
 		}
-		res := s.Exec(seed, q)
+		res := exec(seed, q)
 		return sameFailure(s.relevant(res.Viol), sig)
 	}
 	cur := p.Clone()
@@ -322,8 +340,17 @@ func Shrink(s *Spec, seed uint64, p *prog.Program, sig string, budget time.Durat
 		cfgTry(func(c *prog.Config) { c.IdxMode = 0 })
 		cfgTry(func(c *prog.Config) { c.SegSize = 4096 })
 	}
+	if s.Deep != nil && !hasSnapFaults(cur) {
+		// re-derive the explicit fault that reproduces the failing image
+		res := s.Deep(seed, cur)
+		if w, ok := res.Witness[sig]; ok {
+			cur.Faults = append(cur.Faults, w)
+		}
+	}
 	return cur
 }
+
+func p0(p *prog.Program, s *Spec, seed uint64) *prog.Program { return p }
 
 // ---------------------------------------------------------------- replay files
 
